@@ -99,13 +99,16 @@ theorem valid_cell_data (i : Inst) (h : checkSchedule i = true) (c : Cell) (hc :
     simp only [Bool.and_eq_true, beq_iff_eq] at this
     exact ⟨r, rfl, this.1.1, this.1.2, this.2⟩
 
-/-- with pruning off, every vertex that finishes before a supervisor step of the horizon starts is scheduled -/
+/-- with pruning off, every vertex of another node that finishes before a supervisor step of the horizon starts is
+scheduled (the supervisor's own steps: `valid_supervisor_and_needs`) -/
 theorem valid_noprune_complete (i : Inst) (h : checkSchedule i = true) (hp : i.prune = false) (r : VRow) (hr : r ∈ i.verts)
+    (hns : r.v.kind ≠ i.sup)
     (p : Nat) (hpp : p < i.parts) (s : VRow) (hs : i.row? ⟨i.sup, p⟩ = some s) (hle : r.tsEnd ≤ s.tsStart) :
     Scheduled i r.v := by
   have h6 := (check_parts i h).2.2.2.2.2.1
   simp only [c6, hp, Bool.false_or, List.all_eq_true] at h6
   have := h6 r hr
+  simp only [Bool.or_eq_true, beq_iff_eq, hns, false_or] at this
   simp only [decide_eq_true_eq, List.any_eq_true, beq_iff_eq] at this
   have hex : ∃ x, x ∈ List.range i.parts ∧ (match i.row? ⟨i.sup, (x : Int)⟩ with | some s => decide (r.tsEnd ≤ s.tsStart) | none => false) = true :=
     ⟨p, List.mem_range.mpr hpp, by rw [hs]; simpa using hle⟩
@@ -129,6 +132,16 @@ def demo : Inst :=
 
 example : checkSchedule demo = true := by decide
 example : Anc demo ⟨1, 0⟩ ⟨0, 0⟩ := .direct (r := ⟨⟨0, 0⟩, 7, 9, [(1, [0], [5], [6])]⟩) (by decide) (by decide)
+
+/-- pruning off: a zero-duration supervisor step beyond the horizon that ends when step 0 starts is not owed a slot … -/
+def demoNoPrune : Inst :=
+  { demo with prune := false
+              verts := [⟨⟨1, 0⟩, 0, 5, []⟩, ⟨⟨0, 0⟩, 7, 7, [(1, [0], [5], [6])]⟩, ⟨⟨0, 1⟩, 7, 7, []⟩]
+              cells := [⟨0, 1, 0, 0, true, 0, 0, 5, []⟩, ⟨1, 0, 1, 0, true, 0, 7, 7, [(1, [0], [5], [6])]⟩] }
+
+example : checkSchedule demoNoPrune = true := by decide
+/-- … while a step of another node that finishes in time and has no slot is reported -/
+example : c6 { demoNoPrune with verts := demoNoPrune.verts ++ [⟨⟨1, 1⟩, 5, 6, []⟩] } = false := by decide
 
 /-! ## Every compiled schedule the checker accepts is a valid order of the dataflow graph -/
 
